@@ -194,6 +194,11 @@ class RequirementConstraintTransformer(BaseTransformer[TRCTransformerArgument, E
             evaluated_composition.format_constraints_expression = (
                 FormatConstraintExpressionBuilder(format_constraint).land(other_condition).get_expression()
             )
+        else:
+            # the format constraints that have already been collected inside the other condition are kept
+            evaluated_composition.format_constraints_expression = FormatConstraintExpressionBuilder(
+                other_condition
+            ).get_expression()
 
         return evaluated_composition
 
